@@ -89,7 +89,12 @@ pub fn mute(on: bool) {
 
 /// Context with base settings + overlay and the recording progress callback.
 pub fn make_ctx(overlay: &Value) -> Arc<Context> {
-    Arc::new(sdk::make_context(overlay).with_progress_callback(progress_cb))
+    // the context carries the fixture signer too (used by the embeddable workflow)
+    Arc::new(
+        sdk::make_context(overlay)
+            .with_signer(sdk::make_signer("ed25519"))
+            .with_progress_callback(progress_cb),
+    )
 }
 
 // ------------------------------------------------------------------ operations
@@ -105,9 +110,11 @@ pub enum Op {
     WithArchive,
     JumbfLoad,
     JumbfSave,
+    /// placeholder -> embed -> update_hash_from_stream(SimStream) -> sign_embeddable -> patch
+    Embeddable,
 }
 
-pub const ALL_OPS: [Op; 9] = [
+pub const ALL_OPS: [Op; 10] = [
     Op::Sign,
     Op::SignSidecar,
     Op::Read,
@@ -117,6 +124,7 @@ pub const ALL_OPS: [Op; 9] = [
     Op::WithArchive,
     Op::JumbfLoad,
     Op::JumbfSave,
+    Op::Embeddable,
 ];
 
 impl Op {
@@ -131,6 +139,7 @@ impl Op {
             Op::WithArchive => "with_archive",
             Op::JumbfLoad => "jumbf_load",
             Op::JumbfSave => "jumbf_save",
+            Op::Embeddable => "embeddable",
         }
     }
     pub fn has_async(self) -> bool {
@@ -433,6 +442,49 @@ pub fn exec(sc: &Scenario, env: &ExecEnv) -> Outcome {
                 Ok(b) => Outcome::Bytes(b),
                 Err(e) => Outcome::Err(err_kind(&e)),
             }
+        }
+        Op::Embeddable => {
+            // the simulator plays the caller of the placeholder workflow; only the hash pass
+            // (update_hash_from_stream) is on the simulated stream
+            let ectx = env.ctx.clone();
+            let off = match c2pa::verif::object_locations_from_stream(mime, &mut std::io::Cursor::new(sc.asset.clone())) {
+                Ok(l) => match l.iter().find(|x| x.2 == 0) {
+                    Some(x) => x.0,
+                    None => return Outcome::Err("prep:no-position".into()),
+                },
+                Err(e) => return Outcome::Err(format!("prep:{}", err_kind(&e))),
+            };
+            let mut b = match Builder::from_shared_context(&ectx).with_definition(sc.def.clone()) {
+                Ok(b) => b,
+                Err(e) => return Outcome::Err(err_kind(&e)),
+            };
+            let ph = match b.placeholder(mime) {
+                Ok(p) if !p.is_empty() => p,
+                Ok(_) => return Outcome::Err("prep:empty-placeholder".into()),
+                Err(e) => return Outcome::Err(err_kind(&e)),
+            };
+            let mut image = sc.asset[..off].to_vec();
+            image.extend(&ph);
+            image.extend(&sc.asset[off..]);
+            if let Err(e) = b.set_data_hash_exclusions(vec![c2pa::HashRange::new(off as u64, ph.len() as u64)]) {
+                return Outcome::Err(err_kind(&e));
+            }
+            let mut s = SimStream::new(w, 0, image.clone());
+            if let Err(e) = b.update_hash_from_stream(mime, &mut s) {
+                return Outcome::Err(err_kind(&e));
+            }
+            let signed = match b.sign_embeddable(mime) {
+                Ok(x) => x,
+                Err(e) => return Outcome::Err(err_kind(&e)),
+            };
+            if signed.len() != ph.len() {
+                return Outcome::Err(format!("size-mismatch:{}-vs-{}", signed.len(), ph.len()));
+            }
+            image[off..off + ph.len()].copy_from_slice(&signed);
+            if sc.no_followup {
+                return Outcome::Bytes(image);
+            }
+            read_back(env.verify_ctx, mime, &image)
         }
         Op::JumbfSave => {
             let mut src = SimStream::new(w, 0, sc.asset.clone());
